@@ -1,7 +1,7 @@
 """C01 - Marginal trees are exactly what the node and edge tables say (structural clauses)."""
 from __future__ import annotations
 
-from . import scopes
+from . import scopes, lib_mem
 from . import lib_tree, lib_guards, lib_order, lib_py, lib_module, lib_variant
 
 LEVEL = "other"
@@ -31,3 +31,4 @@ def run(ctx):
     lib_py.null_index(ctx, py)
     lib_py.unused_params(ctx, py, mods=("trees",), only=ps)
     lib_py.kw_forward(ctx, py, mods=("trees",), only=ps)
+    lib_mem.c_lints(ctx, ctx.program(), scopes.lib_scope("C01"))
